@@ -144,8 +144,13 @@ impl VouchedTime {
             return Err(std::io::Error::other("base_time does not match voucher"));
         }
 
+        // Round towards negative infinity: a local time less than one
+        // millisecond before the epoch must not truncate to 0 ms.
         Self::check_vouched_time(
-            local_time.assume_utc().unix_timestamp_nanos() / 1_000_000,
+            local_time
+                .assume_utc()
+                .unix_timestamp_nanos()
+                .div_euclid(1_000_000),
             base_time_ms,
         )
     }
